@@ -219,6 +219,15 @@ Definition erase (p : plan) (key : nat) (st : fv) : fv * outcome :=
        | (st1, _, o) => (st1, o)
        end.
 
+(* ---- a position BEFORE begin():  pos = begin() - d  with d >= 1 (for an empty vector this is also end() - d) ----
+   std::distance(begin(), pos) is then negative; stored in `size_type key` it wraps to 2^64 - d, which is larger than
+   every size_ and capacity_ (an array of that many elements cannot exist).  So the first comparison with size_ raises
+   and nothing has been touched. *)
+Definition erase_before (st : fv) : fv * outcome := (st, Raised).                      (* key >= size_ *)
+Definition emplace_before (st : fv) : fv * outcome :=
+  if cap st <=? size st then (st, Raised) (* size_ >= capacity_ *) else (st, Raised) (* key > size_ *).
+Definition insert_range_before (st : fv) : fv * outcome := (st, Raised).               (* key > size_ *)
+
 (* =====================================================================================================
    A pool of objects, so that copy / move / assignment between objects can be expressed.
    None = no object at that index. *)
@@ -244,7 +253,9 @@ Inductive op :=
    v.push_back(v[k]), v.insert(begin()+pos, begin()+a, begin()+b), v.push_back(begin()+a, begin()+b);
    not executed (Skipped) unless k < size resp. a <= b <= size *)
 | OEmplaceAt (i pos k : nat) | OEmplaceBackAt (i k : nat) | OInsertAt (i k : nat) | OPushBackAt (i k : nat)
-| OInsertSelfRange (i pos a b : nat) | OPushBackSelfRange (i a b : nat).
+| OInsertSelfRange (i pos a b : nat) | OPushBackSelfRange (i a b : nat)
+(* positions before begin(): erase(begin()-d), emplace(begin()-d, v), insert(begin()-d, first, last) *)
+| OEraseBefore (i d : nat) | OEmplaceBefore (i d v : nat) | OInsertRangeBefore (i d : nat) (xs : list nat).
 
 (* a constructor into pool[i]: the old object (if any) is destroyed first; a throwing constructor leaves nothing *)
 Definition construct (P : pool) (i : nat) (r : fv * outcome) : pool * outcome :=
@@ -303,6 +314,9 @@ Definition pstep (p : plan) (o : op) (P : pool) : pool * outcome :=
       on_obj P i (fun st => if self_range_valid st a b then insert_self_range p pos a b st else (st, Skipped))
   | OPushBackSelfRange i a b =>
       on_obj P i (fun st => if self_range_valid st a b then push_back_self_range p a b st else (st, Skipped))
+  | OEraseBefore i _ => on_obj P i erase_before
+  | OEmplaceBefore i _ _ => on_obj P i emplace_before
+  | OInsertRangeBefore i _ _ => on_obj P i insert_range_before
   end.
 
 (* a history: every operation with its own fault plan; the list of outcomes is kept *)
